@@ -177,6 +177,11 @@ pub fn run<A: Cx>(d: &mut Drv<A>, scale: usize, all_offsets: bool) {
             for n in counts {
                 d.emit(json!({"op": "fromraw", "dst": 8, "c": A::NAME, "n": n, "limbs": l}));
             }
+            if A::NAME == "text" {
+                // the text codec's own conversion from a word vector: the whole image
+                d.emit(json!({"op": "fromraw", "dst": 8, "c": A::NAME, "n": words * 8, "limbs": l, "via": "vecusize"}));
+                d.emit(json!({"op": "intoraw", "r": 8}));
+            }
             // counts far beyond any image, among them those whose bit count wraps around 2^64 to
             // something the image does hold
             let t = (w as u64).trailing_zeros();
